@@ -43,12 +43,18 @@ NOT covered: raw byte / grammar-blind fuzzing, CPU instruction operands, option 
   I/O errors, memory exhaustion, inputs longer than the bounds; absence of out-of-bounds accesses is only as good
   as ASan/UBSan detection on the explored inputs.
 
-Mutations of the real code tried (scratch copies, see proposed_fixes/C03-*.md for the fixes themselves):
-  * asmallg.c CodeSECTION: ChkArgCnt(1,1) -> ChkArgCnt(0,1) (reads ArgStr[1] of an argument-less SECTION)  -> caught
-  * asmif.c CodeENDIF: remove the empty-stack test (NULL dereference on a stray ENDIF)                    -> caught
-  * toolutils.c FormatError: exit(3) -> exit(0) ("accepted malformed" for bad magic)                      -> caught
-  * plist.c: drop the magic test                                                                            -> caught
-  and each proposed fix makes the corresponding KNOWN-FINDING disappear (checked with VERIF_REPO=<fixed copy>).
+Mutations tried (patches in selftest/C03-m*.diff, applied to a scratch copy, `VERIF_REPO=<copy> ./check C03 --tier quick`):
+  m1 asmallg.c CodeALIGN: zero test removed (`align 0` divides by zero again)        -> VIOLATION (sanitizer, CodeALIGN)
+  m2 asmif.c CodeENDIF: empty-stack test inverted (stray ENDIF dereferences NULL)    -> VIOLATION (SEGV in CodeENDIF)
+  m3 toolutils.c FormatError: exit(3) -> exit(0)                                     -> VIOLATION x20 (malformed accepted)
+  m4 toolutils.c ReadHeaderByte: truncation no longer a format error                 -> VIOLATION x20 (tools hang)
+  spec mutant: Pseudo() accepts a closer without opener silently                     -> NegSpace_MC: ClosersNeverUnderflow violated
+  corrupted trace: `std` changed by an ALIGN event / stray ENDSTRUCT without error   -> NegSpace_Trace prints both as BAD
+History: on the pinned tree the exploration found 16 defect families (ALIGN 0, empty symbol name, > 3 function
+  arguments, SUBSTR / CHARFROMSTR ranges, tab expansion of recorded lines, IRPN -1, ~30 data pseudo ops writing beyond
+  the code buffer, M16 OpSize[], CP-1600 ZERO, NULL put function in intpseudo.c, the code file reader of all five tools
+  (hangs, SIGFPE, out-of-bounds, accepted malformed files), dasl on an empty image, p2hex granularity 255); fixes are in
+  proposed_fixes/C03-*.diff, known_findings/C03.json records which are applied ("fixed") and which still are "known".
 """
 import json
 import os
@@ -559,3 +565,42 @@ def replay(path):
     log(res["err"][:3000])
     log("recorded: %s" % v["what"])
     return 0
+
+
+def selftest(tier):
+    """Apply each stored mutation (selftest/C03-m*.diff) to a scratch copy of the repository outside /repo and
+    /verif and show that the quick check reports a VIOLATION for it.  The evidence file of the real tree is kept."""
+    import glob
+    import shutil
+    import subprocess
+    import tempfile
+    from vlib.common import REPO, VERIF
+    ev = os.path.join(VERIF, "evidence", PID + ".json")
+    saved = open(ev, "rb").read() if os.path.exists(ev) else None
+    work = tempfile.mkdtemp(prefix="c03-selftest-")
+    bad = 0
+    try:
+        for patch in sorted(glob.glob(os.path.join(VERIF, "selftest", "C03-m*.diff"))):
+            copy = os.path.join(work, "repo")
+            shutil.rmtree(copy, ignore_errors=True)
+            shutil.copytree(REPO, copy, symlinks=True, ignore=shutil.ignore_patterns("_build"))
+            if subprocess.run(["git", "-C", copy, "apply", patch]).returncode != 0:
+                log("selftest: %s does not apply to the current tree (the mutated code changed)" % os.path.basename(patch))
+                bad += 1
+                continue
+            env = dict(os.environ, VERIF_REPO=copy, VERIF_CACHE=os.path.join(work, "cache"))
+            p = subprocess.run([os.path.join(VERIF, "check"), PID, "--tier", "quick"], env=env, cwd=VERIF,
+                               stdout=subprocess.PIPE, stderr=subprocess.STDOUT)
+            out = p.stdout.decode("latin-1")
+            nv = out.count("\nVIOLATION ")
+            log("selftest: %s -> exit %d, %d VIOLATION lines" % (os.path.basename(patch), p.returncode, nv))
+            if p.returncode != 1 or nv == 0:
+                bad += 1
+    finally:
+        shutil.rmtree(work, ignore_errors=True)
+        shutil.rmtree(os.path.join(VERIF, "replays", PID), ignore_errors=True)
+        if saved is not None:
+            with open(ev, "wb") as f:
+                f.write(saved)
+    log("selftest: %s" % ("all mutations detected" if not bad else "%d mutation(s) NOT detected" % bad))
+    return 0 if not bad else 1
